@@ -278,7 +278,7 @@ func run(c *harness.Ctx, i int) {
 	case "gnu-tar-out":
 		ok = gnuTarOut(c, cat.Bytes(), dir, want)
 	case "mtree-out":
-		ok = mtreeOut(c, cat.Bytes(), want, sha256d)
+		ok = mtreeOut(c, cat.Bytes(), want, sha256d, src)
 	}
 	c.Count("trees", 1)
 	c.Count("entries", int64(len(want)))
@@ -660,7 +660,7 @@ func unescapeMtree(s string) string {
 }
 
 // mtreeOut: catar -> MtreeFS; parse the lines.
-func mtreeOut(c *harness.Ctx, cat []byte, want map[string]treegen.Snap, sha256d bool) bool {
+func mtreeOut(c *harness.Ctx, cat []byte, want map[string]treegen.Snap, sha256d bool, src string) bool {
 	var out bytes.Buffer
 	mfs, err := desync.NewMtreeFS(&out)
 	dsu.Must(err)
@@ -726,7 +726,7 @@ func mtreeOut(c *harness.Ctx, cat []byte, want map[string]treegen.Snap, sha256d 
 				s.Target = unescapeMtree(x[1])
 			case "sha512256digest", "sha256digest":
 				copy(s.Hash[:], []byte(x[1])[:min(32, len(x[1]))]) // compared as text below
-				s.Xattrs = map[string]string{"digest": x[1]}
+				s.Xattrs = map[string]string{x[0]: x[1]}
 			}
 		}
 		got[p] = s
@@ -761,6 +761,18 @@ func mtreeOut(c *harness.Ctx, cat []byte, want map[string]treegen.Snap, sha256d 
 		}
 		if w.Type == "file" {
 			chk("size", w.Size, g.Size)
+			// the one place where file content shows in this format: keyword and value follow the configured digest
+			if b, rerr := os.ReadFile(filepath.Join(src, p)); rerr == nil {
+				wantKV := fmt.Sprintf("sha512256digest=%x", sha512.Sum512_256(b))
+				if sha256d {
+					wantKV = fmt.Sprintf("sha256digest=%x", sha256.Sum256(b))
+				}
+				gotKV := ""
+				for k, v := range g.Xattrs {
+					gotKV = k + "=" + v
+				}
+				chk("content-digest", wantKV, gotKV)
+			}
 		}
 		if w.Type == "symlink" {
 			chk("target", w.Target, g.Target)
